@@ -10,7 +10,7 @@ func init() {
 			"(c) split routes pass a neutral per-leg limit, sum their legs and compare the sum; (d) the amount charged by the taker-fee step depends only on quantities the estimate also has (bypass agreement).",
 		NotCovered:  []string{"'exactly the result of performing the hops one after another' as a value statement across pool types", "estimates leave state untouched for cosmwasm pools", "routes visiting a pool twice"},
 		Assumptions: []string{"pool modules implement PoolModuleI as specified (checked for gamm and concentrated-liquidity entries here)", "SDK transaction atomicity"},
-		MinObl:      103,
+		MinObl:      126,
 		Run:         runC05,
 	})
 }
@@ -105,6 +105,8 @@ func runC05(c *rules.Ctx) {
 	gammSwapSettleRules(c)
 
 	poolmanagerQueryRules(c)
+	takerFeeArithmeticRules(c)
+	poolModuleCacheRules(c)
 	// ---- taker fee step --------------------------------------------------------------------------------------------------------
 	const CH = K + "chargeTakerFee"
 	c.Let("FEE", "poolmanager.Keeper.GetTradingPairTakerFee(k,ctx,tokenIn.Denom,tokenOutDenom)#0")
